@@ -26,7 +26,9 @@ func checkC06(c *evalCase) error {
 	return err
 }
 
-var c06Texts = []string{"1.5", "2.5", "-1.5", "0.5", "-0.5", "3", "10", "abc", "", " 4 ", "1e2", "-0", "0.1", "0.2", "7.25", "-2.75", "1000000", "NaN"}
+var c06Texts = []string{"1.5", "2.5", "-1.5", "0.5", "-0.5", "3", "10", "abc", "", " 4 ", "1e2", "-0", "0.1", "0.2", "7.25", "-2.75", "1000000", "NaN",
+	// numerals beyond the double range convert to +-Infinity, below it to zero
+	"1" + strings.Repeat("0", 309), "-1" + strings.Repeat("0", 309), "9" + strings.Repeat("9", 320) + ".5", "0." + strings.Repeat("0", 400) + "1"}
 
 func TestC06(t *testing.T) {
 	runWitnesses(t, "C06")
@@ -94,6 +96,60 @@ func TestC06(t *testing.T) {
 		st.Class("literal")
 		st.NonTrivial("lit|" + xast.RenderMinimal(e))
 		st.Sample("lit|"+c.Text, map[string]any{"expr": c.Text})
+		c06Arith.run(t, c)
+	})
+	// node-set operands: number() of a node-set is number() of its first node in
+	// DOCUMENT order, however the set was produced (reverse axis, caller-ordered variable)
+	runProp(t, "operands", 40000, 300000, func(t *rapid.T) {
+		n := rapid.IntRange(2, 6).Draw(t, "nodes")
+		ev := []xmodel.Event{{K: "S", Local: "r"}}
+		var refs []string
+		for i := 0; i < n; i++ {
+			s := c06Texts[rapid.IntRange(0, len(c06Texts)-1).Draw(t, "text")]
+			ev = append(ev, xmodel.Event{K: "S", Local: "a"})
+			if s != "" {
+				ev = append(ev, xmodel.Event{K: "T", Value: s})
+			}
+			ev = append(ev, xmodel.Event{K: "E"})
+			refs = append(refs, fmt.Sprintf("/0/%d", i))
+		}
+		ev = append(ev, xmodel.Event{K: "E"})
+		shuffled := rapid.Permutation(refs).Draw(t, "callerOrder")
+		c := &evalCase{Events: ev, Ctx: "/", Vars: []varBinding{{Local: "v", T: "nodes", Nodes: shuffled[:rapid.IntRange(1, n).Draw(t, "varSize")]},
+			{Local: "b", T: "num", Num: fmtFloat(genFloat(t, "b"))}}}
+		kinds := []string{"reverse-axis path", "caller-ordered variable", "forward path", "number", "ancestor path"}
+		operand := func(label string) (*xast.Expr, string) {
+			k := rapid.IntRange(0, len(kinds)-1).Draw(t, label)
+			switch k {
+			case 0:
+				return xast.Path(true, xast.S("child", xast.Name("", "r")), xast.S("child", xast.Name("", "a"), xast.Call("last")), xast.S("preceding-sibling", xast.Name("", "a"))), kinds[k]
+			case 1:
+				return xast.Var("v"), kinds[k]
+			case 2:
+				return xast.Path(true, xast.S("child", xast.Name("", "r")), xast.S("child", xast.Name("", "a"))), kinds[k]
+			case 3:
+				return xast.Var("b"), kinds[k]
+			}
+			return xast.Path(true, xast.DS("child", xast.NodeT()), xast.S("ancestor-or-self", xast.Name("", "a"))), kinds[k]
+		}
+		l, lk := operand("left")
+		var e *xast.Expr
+		cls := ""
+		if rapid.IntRange(0, 5).Draw(t, "unary") == 0 {
+			e, cls = xast.Neg(l), "neg "+lk
+		} else {
+			r, rk := operand("right")
+			op := ops[rapid.IntRange(0, 4).Draw(t, "op")]
+			e, cls = xast.Bin(op, l, r), lk+" "+op+" "+rk
+		}
+		c.Expr = e
+		c.Text = xast.Render(e, xast.RapidChooser{T: t}, xast.Style{WS: rapid.Bool().Draw(t, "ws")})
+		st.Eval(1)
+		st.Class("node-set operand")
+		if strings.Contains(cls, "reverse") || strings.Contains(cls, "caller") || strings.Contains(cls, "ancestor") {
+			st.NonTrivial(cls + "|" + fmt.Sprint(ev, c.Vars[0].Nodes, c.Vars[1].Num))
+			st.Sample(cls+c.Text, map[string]any{"expr": c.Text, "events": eventStrings(ev), "v": c.Vars[0].Nodes, "b": c.Vars[1].Num})
+		}
 		c06Arith.run(t, c)
 	})
 	// sum() and count() over nodes with numeric and non-numeric text
